@@ -109,8 +109,10 @@ def _argmax_unique(row):
     return best
 
 
-POOL2 = [[0.7, 0.2], [0.0, 0.85], [0.1, 0.15]]  # incl. a row that gives class 0 a score of exactly 0
-POOL3 = [[0.6, 0.2, 0.1], [0.1, 0.6, 0.2], [0.2, 0.1, 0.6], [0.1, 0.2, 0.15], [0.3, 0.25, 0.2]]
+# dyadic rows (exact in doubles, so the model and the replay see the same numbers), no ties incl. the residual
+# 'none' score; one row gives class 0 a score of exactly 0
+POOL2 = [[0.625, 0.25], [0.0, 0.75], [0.125, 0.1875]]
+POOL3 = [[0.5, 0.25, 0.0625], [0.0625, 0.5, 0.25], [0.25, 0.0625, 0.5], [0.125, 0.25, 0.0625], [0.3125, 0.1875, 0.125]]
 
 
 def _from_pool(S, K):
